@@ -758,6 +758,9 @@ class unyt_array(np.ndarray):
                         f"Input dtype ({self.dtype}) has a smaller itemsize than the "
                         "smallest floating point representation possible."
                     )
+                if not values.flags.writeable:
+                    # refuse before the buffer is re-typed below
+                    raise ValueError("assignment destination is read-only")
                 new_dtype = "f" + str(dsize)
                 large = LARGE_INPUT.get(dsize, 0)
                 if large and np.any(np.abs(values) > large):
